@@ -110,10 +110,10 @@ func (mp MultiPolygon) Len() int {
 func (mp MultiPolygon) Points() func() Point {
 	var i, j, k int
 	return func() Point {
-		if i == len(mp[k][j]) {
+		for j >= len(mp[k]) || i == len(mp[k][j]) {
 			j++
 			i = 0
-			if j == len(mp[k]) {
+			if j >= len(mp[k]) {
 				k++
 				j = 0
 			}
